@@ -149,6 +149,25 @@ def ev_conversions(case, ctx):
             ctx.note_max("ell_minor_rel", abs(b - ref_b) / ref_b)
             if not abs(b - ref_b) <= 1e-3 * ref_b:
                 ctx.violation("pix2sky_ellipse minor %.9g, reference %.9g (%s)" % (b, ref_b, esig), "ell_minor|" + esig)
+            # ---- the other direction: a sky ellipse given exactly (axis ratio exactly as listed, incl. 1) -> pixel -> sky
+            ctx.count("ellipse_sky_first")
+            sa = size * cd
+            sb = sa * ratio
+            spa = ((ang + 90.0) % 180.0) - 90.0
+            px, py, psx, psy, pth = wcs.sky2pix_ellipse([float(rra), float(rdec)], sa, sb, spa)
+            q1, q2, qa, qb, qpa = wcs.pix2sky_ellipse([px, py], psx, psy, pth)
+            ctx.note_max("ell_sky_roundtrip_rel", max(abs(qa - sa) / sa, abs(qb - sb) / sb))
+            if not (abs(qa - sa) <= 1e-3 * sa and abs(qb - sb) <= 1e-3 * sb and (ratio == 1.0 or angd(qpa, spa, 180.0) <= 0.01)
+                    and np.hypot(px - x, py - y) < 1e-6):
+                ctx.violation("sky ellipse (%.6g, %.6g deg, pa %.4f) -> pixel -> sky gives (%.6g, %.6g, %.4f) (%s)" % (
+                    sa, sb, spa, qa, qb, qpa, esig), "ell_sky_roundtrip|" + esig)
+            if ratio == 1.0:
+                ctx.count("vector_sky_first")
+                vx, vy, vr2, vth2 = wcs.sky2pix_vec([float(rra), float(rdec)], sa, spa)
+                w1, w2, wr, wpa = wcs.pix2sky_vec([vx, vy], vr2, vth2)
+                if not (abs(wr - sa) <= 1e-3 * sa and angd(wpa, spa, 360.0) <= 0.01):
+                    ctx.violation("sky vector (%.6g deg, pa %.4f) -> pixel -> sky gives (%.6g, %.4f) (%s)" % (sa, spa, wr, wpa, esig),
+                                  "vec_sky_roundtrip|" + esig)
             bx, by, bsx, bsy, bth = wcs.sky2pix_ellipse([r1, d1], a, b, pa)
             ctx.note_max("ell_roundtrip_rel", max(abs(bsx - sx) / sx, abs(bsy - sy) / sy))
             ctx.note_max("ell_roundtrip_deg", angd(bth, ang, 180.0))
